@@ -11,8 +11,34 @@ for s in $seeds; do
   wt=$(mktemp -d /tmp/selftest-XXXXXX); rmdir $wt
   git -C /repo worktree add -q --detach $wt HEAD || { echo "$s: cannot create worktree"; continue; }
   if ! git -C $wt apply "$here/seeded/$s/patch.diff"; then echo "$s: patch does not apply"; bad=$((bad+1)); git -C /repo worktree remove --force $wt; continue; fi
-  out=$(VERIF_REPO=$wt ./check $prop quick 2>&1); code=$?
-  nsig=$(echo "$out" | grep -c '^VIOLATION')
+  # fast path: only the exploration that caught this seed last time (recorded below); the full check when that misses
+  only=$(python3 -c "import json;print(json.load(open('seeded/$s/meta.json')).get('caught_in_exploration',''))")
+  code=0; nsig=0
+  if [ -n "$only" ] && [ -z "$SELFTEST_FULL" ]; then
+    out=$(VERIF_ONLY="$only" VERIF_REPO=$wt ./check $prop quick 2>&1); code=$?
+    nsig=$(echo "$out" | grep -c '^VIOLATION')
+  fi
+  if [ $code -ne 1 ] || [ $nsig -eq 0 ]; then
+    out=$(VERIF_REPO=$wt ./check $prop quick 2>&1); code=$?
+    nsig=$(echo "$out" | grep -c '^VIOLATION')
+  fi
+  if [ $code -eq 1 ] && [ $nsig -gt 0 ]; then
+    rp=$(echo "$out" | grep '^VIOLATION' | head -1 | sed 's/.*replay=//')
+    python3 - "$s" "$rp" <<'PYEOF'
+import json,sys
+sid,rp=sys.argv[1],sys.argv[2]
+try:
+    ex=json.load(open(rp)).get('explore') or json.load(open(rp)).get('Explore')
+    if ex:
+        mp='seeded/%s/meta.json'%sid
+        m=json.load(open(mp))
+        if m.get('caught_in_exploration')!=ex:
+            m['caught_in_exploration']=ex
+            json.dump(m,open(mp,'w'),indent=1,ensure_ascii=False)
+except Exception as e:
+    pass
+PYEOF
+  fi
   if [ $code -eq 1 ] && [ $nsig -gt 0 ]; then echo "$s: caught by $prop ($nsig signatures)"; ok=$((ok+1)); else echo "$s: NOT CAUGHT by $prop (exit $code)"; echo "$out" | tail -3; bad=$((bad+1)); fi
   git -C /repo worktree remove --force $wt
 done
